@@ -171,7 +171,7 @@ Definition dict_encode_with_dict (d : dict) (values : list N) : list N * bool :=
       if dict_max_size <? d_size d then ([], false)
       else
         let hdr := tagged_put64 (d_size d)
-                   ++ concat (map tagged_put64 (d_values d))
+                   ++ flat_map tagged_put64 (d_values d)
                    ++ tagged_put64 (N.of_nat (length values)) in
         let r := dict_encode_indices (arr_of_list (d_values d)) (d_size d) (d_index_width d) values in
         (hdr ++ fst r, snd r)
@@ -219,16 +219,18 @@ Definition dict_get_stats (values : list N) : option (N * N * N * N * N * N) :=
 
 (* ---------------------------------------------------------------- decoding *)
 
-(* result of the header part shared by both decoders *)
+(* result of the header part shared by both decoders; avail = end - ptr after
+   the read of `count` (so ptr = buffer + (bufferLen - avail)) *)
 Inductive hdr_res :=
 | HFail (allocs : list N)          (* return NULL / 0 *)
 | HFuel
-| HOk (dictValues : list N) (dictSize : N) (count : N) (z : list N) (avail : N) (allocs : list N).
+| HOk (dictValues : list N) (dictSize : N) (count : N) (avail : N) (allocs : list N).
 
 (* `for (i = 0; i < dictSize; i++)` reading the entries with the bounded
-   varintTaggedGet; returns entries, pointer, avail *)
+   varintTaggedGet; z = bytes at ptr, avail = end - ptr; returns the entries
+   and the new avail *)
 Fixpoint dict_read_entries (fuel : nat) (z : list N) (avail : N) (i dictSize : N)
-  : option (option (list N * list N * N)) :=
+  : option (option (list N * N)) :=
   match fuel with
   | O => None
   | S f =>
@@ -237,10 +239,10 @@ Fixpoint dict_read_entries (fuel : nat) (z : list N) (avail : N) (i dictSize : N
         if fst r =? 0 then Some None
         else
           match dict_read_entries f (skipn (N.to_nat (fst r)) z) (avail - fst r) (i + 1) dictSize with
-          | Some (Some (vs, z', a')) => Some (Some (snd r :: vs, z', a'))
+          | Some (Some (vs, a')) => Some (Some (snd r :: vs, a'))
           | x => x
           end
-      else Some (Some ([], z, avail))
+      else Some (Some ([], avail))
   end.
 
 (* common prefix of varintDictDecode / varintDictDecodeInto up to and
@@ -261,10 +263,11 @@ Definition dict_read_header (z : list N) (bufferLen : N) : hdr_res :=
         match dict_read_entries (S (N.to_nat bufferLen)) z1 avail1 0 dictSize with
         | None => HFuel
         | Some None => HFail allocs
-        | Some (Some (vs, z2, avail2)) =>
+        | Some (Some (vs, avail2)) =>
+            let z2 := skipn (N.to_nat (avail1 - avail2)) z1 in
             let rc := tagged_get z2 (tagged_avail avail2) in
             if fst rc =? 0 then HFail allocs
-            else HOk vs dictSize (snd rc) (skipn (N.to_nat (fst rc)) z2) (avail2 - fst rc) allocs
+            else HOk vs dictSize (snd rc) (avail2 - fst rc) allocs
         end.
 
 (* index loop: (stores so far, completed) *)
@@ -295,7 +298,8 @@ Definition dict_decode (z : list N) (bufferLen : N) : dec_res :=
   match dict_read_header z bufferLen with
   | HFail al => DNull al
   | HFuel => DFuel
-  | HOk vs dictSize count z' avail al =>
+  | HOk vs dictSize count avail al =>
+      let z' := skipn (N.to_nat (bufferLen - avail)) z in
       let width := dict_index_width dictSize in
       if avail / N.of_nat width <? count then DNull al
       else
@@ -314,9 +318,10 @@ Definition dict_decode_into (z : list N) (bufferLen maxValues : N) : dec_res :=
   match dict_read_header z bufferLen with
   | HFail al => DNull al
   | HFuel => DFuel
-  | HOk vs dictSize count z' avail al =>
+  | HOk vs dictSize count avail al =>
       if maxValues <? count then DNull al
       else
+        let z' := skipn (N.to_nat (bufferLen - avail)) z in
         let width := dict_index_width dictSize in
         if avail / N.of_nat width <? count then DNull al
         else
